@@ -9,7 +9,7 @@ MARKUP = ['html', 'xml', 'xsl', 'jsx', 'js', 'pug', 'slim', 'haml', 'vue', 'svel
 STYLE = ['css', 'sass', 'scss', 'less', 'sss', 'stylus']
 # probe keys: (kind, key, values to plant in the caller-controlled layers)
 OPT_KEYS = ['output.selfClosingStyle', 'stylesheet.after', 'output.indent', 'markup.attributes', 'jsx.enabled', 'stylesheet.between', 'output.inlineBreak', 'custom.option']
-SNIP_KEYS = ['a', 'xx', 'tm', '!!!', 'p']
+SNIP_KEYS = ['a', 'xx', 'tm', '!!!', 'p', 'bd', 'm']
 VAR_KEYS = ['lang', 'myvar', 'charset']
 
 
@@ -26,7 +26,8 @@ def planted(kind, key, layer):
 def cases(tier, seed, prop):
     rnd = random.Random(seed)
     out = []
-    syntaxes = [('markup', s) for s in MARKUP + ['unknown-x', 'markup', 'xhtml']] + [('stylesheet', s) for s in STYLE + ['unknown-y', 'stylesheet']] + [(None, None), ('markup', None), ('stylesheet', None), (None, 'pug')]
+    syntaxes = [('markup', s) for s in MARKUP + ['unknown-x', 'markup', 'xhtml']] + [('stylesheet', s) for s in STYLE + ['unknown-y', 'stylesheet']] + [(None, None), ('markup', None), ('stylesheet', None), (None, 'pug')] \
+        + [('markup', 'php'), ('stylesheet', 'php'), ('stylesheet', 'twig'), ('markup', 'twig'), ('markup', 'css'), ('stylesheet', 'html')]     # one name under both types, in both orders
     for (ty, sy) in syntaxes:
         for subset in itertools.product([False, True], repeat=3):
             probes = [('o', k) for k in OPT_KEYS] + [('sn', k) for k in SNIP_KEYS] + [('vr', k) for k in VAR_KEYS]
